@@ -764,7 +764,7 @@ func init() {
 		Assumptions: []string{"pool quotes that involved limit orders (fills reported in tx.commission_details, or a differing quote on a pool that carries orders) are not judged for their amount - the order book is judged by C14; the same holds for the table-coin conversion when the table coin's pool carries orders",
 			"the payer's debit is compared exactly only where the transaction's own spending in the gas coin is known from its data (not for trades/liquidity that move the gas coin by a node-computed amount; C15/C13 judge those)",
 			"bancor amounts are compared within the C12 closeness tolerance"},
-		Quick: 56, Thorough: 2200, MinEval: 6000, MinDistinct: 120,
+		Quick: 56, Thorough: 560, MinEval: 6000, MinDistinct: 120,
 		Run: runC27,
 	})
 }
